@@ -60,7 +60,7 @@ def answer(rng, size_bias=0.0):
     if r < 0.60:
         return "rcode=NXDOMAIN"
     if r < 0.75:
-        n = rng.choice([1, 5, 40, 120, 200, 250])
+        n = rng.choice([1, 5, 40, 80, 120, 160])
         return "an=TXT:" + "".join(rng.choice("abcdefghijklmnopqrstuvwxyz") for _ in range(n))
     if r < 0.85:
         k = rng.randint(2, 6)
@@ -68,7 +68,7 @@ def answer(rng, size_bias=0.0):
     return "an=MX:10:mx%d.example" % rng.randint(0, 99)
 
 
-RUN = ["run 4000", "flushwrites", "run 4000"]
+RUN = ["run @", "flushwrites", "run @"]      # @ = iteration bound, filled in by finish()
 
 
 def name(T):
@@ -276,16 +276,69 @@ def gen_junk(rng, tier):
     return " ".join(c) + "|" + ";".join(ops)
 
 
+def _calls(pattern, nbytes):
+    """upper bound on the number of reads/writes needed to move nbytes through a pattern"""
+    if not pattern:
+        return 2
+    last = pattern[-1] if pattern[-1] > 0 else 10 ** 6
+    return len(pattern) + nbytes // last + 2
+
+
+def _answer_size(spec):
+    n = 90
+    for part in spec.split(","):
+        if part.startswith("an="):
+            n += len(part)
+    return n
+
+
+def finish(case):
+    """Fill in the iteration bound of every `run @`: a safe over-estimate of what the transfer
+    needs with the case's read/write patterns (so that a library that makes no progress costs
+    hundreds, not tens of thousands, of event-loop iterations per case)."""
+    head, body = case.split("|", 1)
+    chunk, wpat = [], []
+    for w in head.split():
+        if w.startswith("chunk="):
+            chunk = [int(x) for x in w[6:].split(",")]
+        if w.startswith("wpat="):
+            wpat = [int(x) for x in w[5:].split(",")]
+    sends = 0
+    rbytes = 0
+    out = []
+    for op in body.split(";"):
+        ws = op.split()
+        if ws and ws[0] == "send":
+            sends += 1
+        elif ws and ws[0] == "rsp":
+            dup = 2 if "dup=2" in op else 1
+            rbytes += dup * _answer_size(ws[2] if len(ws) > 2 else "")
+        elif ws and ws[0] == "rspall":
+            dup = 2 if "dup=2" in op else 1
+            rbytes += dup * 3 * sends * _answer_size(ws[1] if len(ws) > 1 else "")
+        elif ws and ws[0] == "raw":
+            rbytes += len(ws[2]) // 2 if len(ws) > 2 else 0
+        if op == "run @":
+            # every outstanding query may be (re)transmitted on up to 3 connections
+            need = 30 + 3 * _calls(wpat, 3 * 40 * sends) + 2 * _calls(chunk, rbytes + 4)
+            out.append("run %d" % min(need, 20000))
+            rbytes = 0      # everything queued has been read when the loop went idle
+        else:
+            out.append(op)
+    return head + "|" + ";".join(out)
+
+
 def gen_c20(rng, tier, n):
     out = []
     for _ in range(n):
         r = rng.random()
         if r < 0.5:
-            out.append(gen_pure(rng, tier))
+            c = gen_pure(rng, tier)
         elif r < 0.68:
-            out.append(gen_tc(rng, tier))
+            c = gen_tc(rng, tier)
         elif r < 0.88:
-            out.append(gen_mixed(rng, tier))
+            c = gen_mixed(rng, tier)
         else:
-            out.append(gen_junk(rng, tier))
+            c = gen_junk(rng, tier)
+        out.append(finish(c))
     return out
